@@ -160,7 +160,14 @@ func (rt *runtime) cmplEvaluateNodeBinaryExpression(node *nodeBinaryExpression) 
 		return right.resolve()
 	}
 
-	return rt.calculateBinaryExpression(node.operator, leftValue, rt.cmplEvaluateNodeExpression(node.right))
+	right := rt.cmplEvaluateNodeExpression(node.right)
+	if node.operator == token.INSTANCEOF || node.operator == token.IN {
+		// These operators raise a TypeError when the right operand is not an
+		// object (or not callable): like a call expression, note where the
+		// expression starts so that the error carries its own position.
+		rt.scope.frame.offset = int(node.idx)
+	}
+	return rt.calculateBinaryExpression(node.operator, leftValue, right)
 }
 
 func (rt *runtime) cmplEvaluateNodeBinaryExpressionComparison(node *nodeBinaryExpression) Value {
